@@ -110,6 +110,20 @@ inline ref::RPrt prtFromSpec(const Line& l) {
 		p.anims.push_back(a);
 	}
 	p.unknownCount = static_cast<uint32_t>(r.next());
+	// lists larger than a megabyte of encoded data (a reader that takes size-prefixed lists in portions crosses its portion size)
+	size_t hugeImg = static_cast<size_t>(l.u("hugeimg", 0)), hugeUc = static_cast<size_t>(l.u("hugeuc", 0));
+	if (hugeImg > 200000 || hugeUc > 200000) throw std::runtime_error("prt spec too large");
+	if (npal) for (size_t i = 0; i < hugeImg; ++i) {
+		ref::RPrt::Image im;
+		uint64_t x = mix64(l.u("seed", 1), i);
+		im.width = static_cast<uint32_t>(x % 200); im.scanLine = (im.width + 3) & ~3u; im.height = static_cast<uint32_t>((x >> 8) % 100);
+		im.dataOffset = static_cast<uint32_t>(x >> 16); im.type = static_cast<uint16_t>(x >> 48); im.paletteIndex = static_cast<uint16_t>((x >> 40) % npal);
+		p.images.push_back(im);
+	}
+	if (hugeUc && !p.anims.empty()) {
+		auto& uc = p.anims[l.u("seed", 1) % p.anims.size()].unknownContainer;
+		for (size_t c = 0; c < hugeUc; ++c) { std::array<uint8_t, 16> e; uint64_t x = mix64(l.u("seed", 1) ^ 0x75, c); memcpy(e.data(), &x, 8); x = mix64(x, 1); memcpy(e.data() + 8, &x, 8); uc.push_back(e); }
+	}
 	return p;
 }
 
